@@ -9,6 +9,7 @@ import (
 	"sort"
 	"strings"
 	"sync"
+	"sync/atomic"
 	"time"
 
 	"golang.org/x/tools/go/packages"
@@ -215,6 +216,11 @@ type Instance struct {
 	// (e.g. an anonymous closure executed with opaque captured variables);
 	// its violations are reported without native confirmation.
 	EngineOnly bool
+	// NoWitness: passing paths of this instance are not replayed natively by the
+	// translation self-check (their course depends on scheduling or on the clock,
+	// which the native run does not take from the replay file).
+	NoWitness   bool
+	witnessLeft int32 // how many more completed paths should carry a witness (atomic)
 }
 
 func (in *Instance) Name() string {
@@ -242,9 +248,19 @@ type InstanceResult struct {
 	Steps        int64
 	FeasUnknown  int
 	Samples      []map[string]interface{}
+	Witnesses    []*WitnessPath
 	Wall         time.Duration
 	mu           sync.Mutex
 	pending      int
+}
+
+// WitnessPath: a completed (passing) path with a concrete assignment of its
+// inputs, for the native self-check of the translation.
+type WitnessPath struct {
+	Decisions []Decision
+	Syms      []SymRecord
+	Covers    []string
+	Asserts   int
 }
 
 type workItem struct {
@@ -377,6 +393,14 @@ func (e *Engine) merge(ir *InstanceResult, pr *PathResult) {
 		ir.Funcs[f] = true
 	}
 	ir.Violations = append(ir.Violations, pr.Violations...)
+	if pr.WitnessSyms != nil {
+		w := &WitnessPath{Decisions: pr.Decisions, Syms: pr.WitnessSyms, Asserts: pr.Asserts}
+		for k := range pr.Covers {
+			w.Covers = append(w.Covers, k)
+		}
+		sort.Strings(w.Covers)
+		ir.Witnesses = append(ir.Witnesses, w)
+	}
 	for _, s := range pr.Inconclusive {
 		if len(ir.Inconclusive) < 50 {
 			ir.Inconclusive = append(ir.Inconclusive, s)
@@ -493,6 +517,21 @@ func (e *Engine) runPath(sol *Solver, in *Instance, prefix []Decision) (res *Pat
 	p.ensureFeasible()
 	if p.di < len(p.prefix) {
 		panic(engineError{"path finished before consuming its decision prefix"})
+	}
+	if len(res.Violations) == 0 && len(res.Inconclusive) == 0 && atomic.AddInt32(&in.witnessLeft, -1) >= 0 {
+		// translation self-check: a concrete assignment of this passing path's inputs
+		if r, m := p.sol.Check(nil, true); r == ResSat {
+			res.WitnessSyms = []SymRecord{}
+			for _, s := range p.syms {
+				s2 := SymRecord{Name: s.Name, Kind: s.Kind}
+				memo := map[int]uint64{}
+				for _, t := range s.Terms {
+					x, _ := p.ctx.Eval(t, m, memo)
+					s2.Vals = append(s2.Vals, x)
+				}
+				res.WitnessSyms = append(res.WitnessSyms, s2)
+			}
+		}
 	}
 	return res
 }
